@@ -167,8 +167,13 @@ def run(seed=0, tier="quick", aimed=None):
             # (a) poisoned scratch
             sim2, body2, it2 = build(cfg)
             init_state(sim2, impl.rng(seed, "c18init", ci))
-            for s in range(nsteps):
-                one_step(sim2, body2, it2, dts[s], U, s, poison=True)
+            try:
+                for s in range(nsteps):
+                    one_step(sim2, body2, it2, dts[s], U, s, poison=True)
+            except Exception as e:  # noqa: BLE001  (NaN from a scratch buffer reached the public state and broke the coupling)
+                return {"ok": False, "cases": cases, "samples": samples, "failing_input": {
+                    "oracle": "c18_hidden_state", "what": f"with NaN-poisoned scratch buffers the run fails at step {s}: {type(e).__name__}: {str(e)[:120]} "
+                    "(the unpoisoned run is fine): scratch contents reach the public state", **label}}
             fin2 = public_state(sim2, body2, it2)
             cases += 1
             for k in final:
